@@ -88,13 +88,15 @@ def astar[S](
         iterations += 1
         closed.add(current)
 
+        # Nodes beyond the cost limit are neither expanded nor accepted as goal: a goal reached through them may have a
+        # cheaper route through a pruned node, so its cost would not be the shortest distance
+        if max_cost is not None and g[current] > max_cost:
+            continue
+
         if is_goal(current):
             path = reconstruct_path(parent, current)
             status = Status.OPTIMAL if weight == 1.0 else Status.FEASIBLE
             return Result(path, g[current], iterations, evaluations, status)
-
-        if max_cost is not None and g[current] > max_cost:
-            continue
 
         for neighbor, edge_cost in neighbors(current):
             if neighbor in closed:
